@@ -183,6 +183,23 @@ theorem C05_frames_and_reports (o : Opts) (ds : List DFrame) (hp : o.parsed = tr
     List.append_nil, Nat.add_zero]
   exact h
 
+/-- the same event sequence — good frames in order, one handler call / raise per damaged frame —
+    over every exact socket connection delivering the stream (any segmentation, any buffer size) -/
+theorem C05_event_sequence_over_socket (dec : Bytes → Bytes) (R : Sock → Bytes → Prop) (E : Exact dec R)
+    (o : Opts) (ds : List DFrame) (hp : o.parsed = true)
+    (hv : o.validate &&& T2.valcksum ≠ 0) (hd : ∀ d ∈ ds, d.Valid T2 o)
+    (s : Sock) (h : R s (ds.map DFrame.bytes).flatten) :
+    run (sockOps dec) T2 o true s = (ds.map (DFrame.events T2 o)).flatten ++ [.stop] := by
+  have e1 : streamOf (ds.map fun d => SItem.frame d.bytes) = (ds.map DFrame.bytes).flatten := by
+    simp [streamOf, SItem.bytes, Function.comp_def]
+  have := C02_events_over_exact_connection dec R E o (ds.map fun d => SItem.frame d.bytes) (by
+    intro it hit
+    simp at hit
+    obtain ⟨d, hd', rfl⟩ := hit
+    exact DFrame.item_valid T2 o d (hd d hd')) s (by rw [e1]; exact h)
+  rw [this, e1]
+  exact C05_event_sequence o ds hp hv hd
+
 /-- non-vacuity: a one-bit error pattern behind the header is a valid damage of a valid frame -/
 example : (DFrame.bad [0xd3, 0, 2, 0xff, 0xf0, 13, 77, 124] [0, 0x10, 0, 0, 0]).Valid T2 ⟨1, 1, 1, true⟩ := by
   refine ⟨⟨⟨0, 2, [0xff, 0xf0], [13, 77, 124], rfl, by decide, by decide, by decide⟩⟩, by decide +kernel, by decide, by decide +kernel⟩
